@@ -1,4 +1,5 @@
 import OomdModel.Fault
+import OomdProofs.CtxFault
 
 /-!
 # C10 — a tick survives missing, empty, unreadable or vanishing files
@@ -7,6 +8,11 @@ Theorems about the crash-point model `OomdModel.Fault` of the readers (tied to `
 `Oomd.cpp`, `CgroupContext.cpp` by the `h_tick` correspondence run, reader by reader and file
 state by file state).  They quantify over every file state, every content and every behaviour of
 the number parser (`num`).
+
+The second half (`accessor_*`, `faulty_*_dependents_*`) is about the accessor layer `OomdModel.CtxFault` built on the
+readers (`CgroupContext.cpp`: the lazily filled fields, the derived statistics and their walk up the hierarchy), tied to
+the real `CgroupContext` / `OomdContext` by the `h_tick` kind `ctx` run (every accessor x every control file x every
+fault state, on the cgroup itself, its parent and a sibling).
 
 What is **not** covered by a theorem (labelled partial in MANIFEST.json): memory safety of the
 code outside the modelled index operations, hangs, and the composition of a whole tick over all
@@ -146,6 +152,147 @@ theorem unfixed_missing_pswpout_throws :
 theorem unfixed_dtype_hides_children :
     readDirUnknownTypeUnfixed [{ name := "child".toList, isDir := true, isReg := false }] = ([], ["child".toList]) := by
   decide
+
+/-! ### the accessor layer (`CgroupContext`) -/
+
+section Accessors
+open OomdModel.CtxFault
+
+/-- Whatever combination of its control files is missing, unopenable, unreadable or empty, every reader of a cgroup
+reports `ok` or `unavailable`, provided the files that *are* there are accepted by their reader (kernel grammar). -/
+theorem readings_safe_in_fault_domain (P : Parsers) (f : CgFiles)
+    (h1 : Faulty f.memCurrent ∨ ∃ v, firstLineNum P.num f.memCurrent = .ok v)
+    (h2 : Faulty f.swapCurrent ∨ ∃ v, firstLineNum P.num f.swapCurrent = .ok v)
+    (h3 : Faulty f.swapMax ∨ ∃ v, minMaxLowHigh P.num f.swapMax = .ok v)
+    (h4 : Faulty f.memLow ∨ ∃ v, minMaxLowHigh P.num f.memLow = .ok v)
+    (h5 : Faulty f.memMin ∨ ∃ v, minMaxLowHigh P.num f.memMin = .ok v)
+    (h6 : Faulty f.memHigh ∨ ∃ v, minMaxLowHigh P.num f.memHigh = .ok v)
+    (h7 : Faulty f.memHighTmp ∨ ∃ v, memHighTmp P.num f.memHighTmp = .ok v)
+    (h8 : Faulty f.memMax ∨ ∃ v, minMaxLowHigh P.num f.memMax = .ok v)
+    (h9 : Faulty f.events ∨ ∃ v, populated f.events = .ok v)
+    (h10 : Faulty f.memPressure ∨ ((∃ v, pressure P.fnum true f.memPressure = .ok v) ∧ ∃ v, pressure P.fnum false f.memPressure = .ok v))
+    (h11 : Faulty f.ioPressure ∨ ((∃ v, pressure P.fnum true f.ioPressure = .ok v) ∧ ∃ v, pressure P.fnum false f.ioPressure = .ok v)) :
+    (readingsOf P f).safe = true := by
+  have F := fun (g : FileSt) (hg : Faulty g) => faulty_file_is_unavailable P.num P.fnum true g hg
+  have F' := fun (g : FileSt) (hg : Faulty g) => faulty_file_is_unavailable P.num P.fnum false g hg
+  have K := kv_and_iostat_always_safe P f
+  have O : (oomGroup f.oomGroupF).safe = true := by unfold oomGroup; split <;> rfl
+  rw [Readings.safe_iff]
+  simp only [readingsOf]
+  refine ⟨?_, ?_, ?_, ?_, ?_, ?_, ?_, ?_, K.1, K.2.1, ?_, O, ?_, ?_, ?_, ?_, K.2.2⟩
+  · rcases h1 with h | ⟨v, h⟩; · rw [(F _ h).1]; rfl
+    · rw [h]; rfl
+  · rcases h2 with h | ⟨v, h⟩; · rw [(F _ h).1]; rfl
+    · rw [h]; rfl
+  · rcases h3 with h | ⟨v, h⟩; · rw [(F _ h).2.1]; rfl
+    · rw [h]; rfl
+  · rcases h4 with h | ⟨v, h⟩; · rw [(F _ h).2.1]; rfl
+    · rw [h]; rfl
+  · rcases h5 with h | ⟨v, h⟩; · rw [(F _ h).2.1]; rfl
+    · rw [h]; rfl
+  · rcases h6 with h | ⟨v, h⟩; · rw [(F _ h).2.1]; rfl
+    · rw [h]; rfl
+  · rcases h7 with h | ⟨v, h⟩; · rw [(F _ h).2.2.1]; rfl
+    · rw [h]; rfl
+  · rcases h8 with h | ⟨v, h⟩; · rw [(F _ h).2.1]; rfl
+    · rw [h]; rfl
+  · rcases h9 with h | ⟨v, h⟩; · rw [(F _ h).2.2.2.2.1]; rfl
+    · rw [h]; rfl
+  · rcases h10 with h | ⟨⟨v, h⟩, _⟩; · rw [(F _ h).2.2.2.2.2]; rfl
+    · rw [h]; rfl
+  · rcases h10 with h | ⟨_, ⟨v, h⟩⟩; · rw [(F' _ h).2.2.2.2.2]; rfl
+    · rw [h]; rfl
+  · rcases h11 with h | ⟨⟨v, h⟩, _⟩; · rw [(F _ h).2.2.2.2.2]; rfl
+    · rw [h]; rfl
+  · rcases h11 with h | ⟨_, ⟨v, h⟩⟩; · rw [(F' _ h).2.2.2.2.2]; rfl
+    · rw [h]; rfl
+
+/-- **The accessor layer adds no crash point.**  If every reader result reachable from a cgroup - its own files, those of
+every ancestor up to the root, those of the siblings summed over at every level - is `ok` or `unavailable`, then each of
+the 32 accessors of the table returns `ok` or `unavailable`: no exception, no out-of-bounds index, at any depth, for any
+arithmetic and any tick history. -/
+theorem accessor_layer_no_crash (A : Arith) (S : Sys) (ar : Archive) (l : Level) (up : List Level)
+    (hS : S.rootUsage.safe = true) (h : chainSafe (l :: up) = true) :
+    ∀ a ∈ Acc.all, (evalAcc A S ar l up a).safe = true :=
+  fun a _ => evalAcc_safe A S ar l up hS h a
+
+/-- the table lists every accessor -/
+theorem acc_table_complete (a : Acc) : a ∈ Acc.all := by cases a <;> decide
+
+/-- **The affected statistics are unavailable** (own files).  For a cgroup whose other readings are safe:
+a faulty `memory.current` makes usage, moving average, growth, raw protection and effective usage unavailable;
+a faulty `memory.min` or `memory.low` makes the raw protection unavailable; a `memory.stat` that cannot be read makes
+anon / file / shmem usage and both pgscan statistics unavailable; an `io.stat` that cannot be read makes both io-cost
+statistics unavailable. -/
+theorem faulty_own_file_dependents_unavailable (A : Arith) (S : Sys) (ar : Archive) (l : Level) (up : List Level) :
+    (l.r.current = .unavailable →
+        averageUsage A ar.avg l.r = .unavailable ∧ memoryGrowth A ar.avg l.r = .unavailable ∧
+        rawProtection l.r = .unavailable ∧ effectiveUsage A S (l :: up) = .unavailable) ∧
+    (l.r.current.safe = true → (l.r.memMin = .unavailable ∨ (l.r.memMin.safe = true ∧ l.r.memLow = .unavailable)) →
+        rawProtection l.r = .unavailable) ∧
+    (l.r.memStat = .unavailable →
+        anonUsage l.r = .unavailable ∧ fileUsage l.r = .unavailable ∧ shmemUsage l.r = .unavailable ∧
+        pgScanCumulative l.r = .unavailable ∧ pgScanRate ar.pgScan l.r = .unavailable) ∧
+    (l.r.ioStat = .unavailable →
+        ioCostCumulative A l.r = .unavailable ∧ ioCostRate A ar.ioCost l.r = .unavailable) := by
+  refine ⟨?_, ?_, ?_, ?_⟩
+  · intro h
+    refine ⟨?_, ?_, ?_, ?_⟩ <;> simp [averageUsage, memoryGrowth, rawProtection, effectiveUsage, h, bnd, Res.bind]
+  · intro hc hm
+    unfold rawProtection
+    cases hcur : l.r.current with
+    | ok c =>
+      rcases hm with hm | ⟨hs, hl⟩
+      · simp [hm, bnd, Res.bind]
+      · cases hmn : l.r.memMin with
+        | ok mn => simp [hl, bnd, Res.bind]
+        | unavailable => simp [bnd, Res.bind]
+        | throws => rw [hmn] at hs; cases hs
+        | ub => rw [hmn] at hs; cases hs
+    | unavailable => simp [bnd, Res.bind]
+    | throws => rw [hcur] at hc; cases hc
+    | ub => rw [hcur] at hc; cases hc
+  · intro h
+    refine ⟨?_, ?_, ?_, ?_, ?_⟩ <;>
+      simp [anonUsage, fileUsage, shmemUsage, lookupStat, pgScanCumulative, pgScanRate, pgScan, h, bnd, Res.bind]
+  · intro h
+    refine ⟨?_, ?_⟩ <;> simp [ioCostCumulative, ioCostRate, h, bnd, Res.bind]
+
+/-- **The affected statistics are unavailable** (hierarchy).  When the readings reachable from the cgroup are safe:
+a `memory.swap.max` that cannot be read at the cgroup makes its effective swap max, free and utilisation unavailable;
+so does an ancestor that cannot be opened; and the unavailability of an ancestor's effective swap max propagates down. -/
+theorem faulty_swap_dependents_unavailable (A : Arith) (S : Sys) (l : Level) (up : List Level)
+    (h : chainSafe (l :: up) = true) :
+    (l.r.swapMax = .unavailable →
+        effectiveSwapMax S (l :: up) = .unavailable ∧ effectiveSwapFree S (l :: up) = .unavailable ∧
+        effectiveSwapUtil A S (l :: up) = .unavailable) ∧
+    (l.parentOpen = false → effectiveSwapMax S (l :: up) = .unavailable) ∧
+    (effectiveSwapMax S up = .unavailable → effectiveSwapMax S (l :: up) = .unavailable) := by
+  have h' : (l.r.safe = true ∧ l.sibs.all Readings.safe = true) ∧ chainSafe up = true := by
+    simpa only [chainSafe, Bool.and_eq_true] using h
+  have hup := effectiveSwapMax_safe S up h'.2
+  refine ⟨?_, ?_, ?_⟩
+  · intro hm
+    refine ⟨?_, ?_, ?_⟩
+    · unfold effectiveSwapMax
+      split
+      · rfl
+      · cases hp : effectiveSwapMax S up with
+        | ok pm => simp [hm, bnd, Res.bind]
+        | unavailable => simp [bnd, Res.bind]
+        | throws => rw [hp] at hup; cases hup
+        | ub => rw [hp] at hup; cases hup
+    · simp [effectiveSwapFree, hm, bnd, Res.bind]
+    · simp [effectiveSwapUtil, hm, bnd, Res.bind]
+  · intro hp
+    simp [effectiveSwapMax, hp]
+  · intro hp
+    unfold effectiveSwapMax
+    split
+    · rfl
+    · simp [hp, bnd, Res.bind]
+
+end Accessors
 
 /-- non-vacuity: the fault domain is inhabited by distinct states -/
 example : Faulty .absent ∧ Faulty (.lines []) ∧ ¬ Faulty (.lines ["1".toList]) := by
